@@ -4,6 +4,8 @@ package main
 
 import (
 	"fmt"
+	"os"
+	"strconv"
 	"sync"
 
 	"github.com/risor-io/risor/object"
@@ -13,8 +15,14 @@ import (
 
 func main() {
 	defer c09.Cleanup()
+	rounds := 40
+	if len(os.Args) > 1 {
+		if n, err := strconv.Atoi(os.Args[1]); err == nil && n > 0 {
+			rounds = n
+		}
+	}
 	for _, sc := range c09.Scenarios() {
-		for round := 0; round < 40; round++ {
+		for round := 0; round < rounds; round++ {
 			object.VerifResetTypeCaches()
 			var wg sync.WaitGroup
 			bodies := sc.Make()
